@@ -1,6 +1,6 @@
 SPECIFICATION Spec
 CONSTANTS
-  Classes = {"formatted", "unformatted", "unparseable", "missing", "unreadable", "readonly", "verifyfail", "crash", "nonutf8"}
+  Classes = {"formatted", "unformatted", "unparseable", "missing", "unreadable", "readonly", "verifyfail", "crash", "nonutf8", "crlf"}
   Locs = {"arg", "dir"}
   MaxFiles = 2
   Modes = {"check", "write"}
